@@ -219,10 +219,12 @@ fn check_wakes(hist: &[Rec], ctx: &mut Ctx) -> Result<(), Fail> {
 // ---------------------------------------------------------------------------
 // session helpers
 
+/// NOTE: field order is drop order: the terminal first (its closing handshake needs the peer),
+/// then the peer thread (it uses the master descriptor), then the descriptors
 struct Session {
-    pty: Pty,
-    peer: Peer,
     term: Option<SystemTerminal>,
+    peer: Peer,
+    pty: Pty,
 }
 
 fn open_session(drain: Drain, seed: u64, odd_termios: Option<u64>) -> Result<(Session, Option<super::pty::TermiosSnapshot>), Fail> {
@@ -752,7 +754,7 @@ fn check_exit_case(script: &[XOp], mode: &ExitMode, odd: u64, seed: u64, ctx: &m
                 for op in &script[..k] {
                     do_xop(&mut term, &session.pty, &waker, op);
                 }
-                session.peer.shared.paused.store(true, Ordering::SeqCst);
+                session.peer.park();
                 session.pty.close_master();
                 peer_open = false;
                 // the application notices on its next polls
@@ -855,11 +857,12 @@ impl Prop for C17 {
                 }
             }
             5 | 6 => {
-                let n = rng.range(10, if tier.quick() { 400 } else { 3000 });
+                let batch = *rng.pick(&[1usize, 3, 16, 64, 700]);
+                let n = rng.range(10, if batch < 4 { 300 } else if tier.quick() { 400 } else { 3000 });
                 let keys = (0..n).map(|_| rng.range(0x21, 0x7e) as u8).collect();
                 Case::Input {
                     keys,
-                    batch: *rng.pick(&[1usize, 3, 16, 64, 700]),
+                    batch,
                     pending_kb: *rng.pick(&[0usize, 100, 250]),
                     winch: rng.range(0, 4),
                     slow: rng.bool(),
@@ -867,11 +870,13 @@ impl Prop for C17 {
                 }
             }
             9 => {
-                let n = rng.range(5, if tier.quick() { 120 } else { 600 });
-                let items = (0..n).map(|i| super::c04::gen_item(rng, i as u64 * 7 + 1)).collect();
-                let batches = (0..rng.range(1, 5))
+                let batches: Vec<usize> = (0..rng.range(1, 5))
                     .map(|_| *rng.pick(&[1usize, 2, 7, 64, 300, 1023, 1024, 1025, 2048]))
                     .collect();
+                // byte-wise typing is slow (one poll per byte): keep those sessions short
+                let tiny = batches.iter().all(|b| *b < 8);
+                let n = rng.range(5, if tiny { 60 } else if tier.quick() { 120 } else { 600 });
+                let items = (0..n).map(|i| super::c04::gen_item(rng, i as u64 * 7 + 1)).collect();
                 Case::Events {
                     items,
                     batches,
